@@ -137,7 +137,7 @@ func (e *c12Env) run(c c12Case) (obs, bad string) {
 		cfg = shortShape().lib()
 	}
 	cfgCopy := cfg
-	caller := otp.Param{Digits: otp.Digits([]int{6, 8, 0, 10, 11}[c.Sub%5]), Algorithm: otp.Algorithm(c.Sub % 3), Period: uint([]int{0, 30, 1}[c.Sub%3]), Skew: uint([]int{0, 1, 10, 11}[c.Sub%4])}
+	caller := otp.Param{Digits: otp.Digits([]int{6, 8, 0, 10, 11}[c.Sub%5]), Algorithm: otp.Algorithm(c.Sub % 3), Period: uint([]int{0, 30, 1}[c.Sub%3]), Skew: uint([]int{0, 1, 10, 11, 2}[(c.Sub/4)%5])}
 	callerCopy := caller
 	var pp *otp.Param
 	switch c.Sub % 4 {
@@ -180,18 +180,18 @@ func (e *c12Env) run(c c12Case) (obs, bad string) {
 					}
 				}
 			case "GenerateHOTP":
-				s, err := otp.GenerateHOTP(sec, 7, pp)
+				s, err := otp.GenerateHOTP(sec, []uint64{7, 0, 1}[(c.Sub/2)%3], pp)
 				results = append(results, s+errStr(err))
 				retain(&kept, op, []string{s})
 			case "ValidateHOTP":
-				ok, err := otp.ValidateHOTP(sec, "123456", 7, pp)
+				ok, err := otp.ValidateHOTP(sec, "123456", []uint64{7, 0, 1, 1<<64 - 1}[(c.Sub/2)%4], pp)
 				results = append(results, fmt.Sprint(ok, err != nil))
 			case "GenerateTOTP":
-				s, err := otp.GenerateTOTP(sec, t, pp)
+				s, err := otp.GenerateTOTP(sec, []time.Time{t, time.Unix(0, 0), time.Unix(29, 0)}[(c.Sub/2)%3], pp)
 				results = append(results, s+errStr(err))
 				retain(&kept, op, []string{s})
 			case "ValidateTOTP":
-				ok, err := otp.ValidateTOTP(sec, "123456", t, pp)
+				ok, err := otp.ValidateTOTP(sec, "123456", []time.Time{t, time.Unix(0, 0), time.Unix(29, 0)}[(c.Sub/2)%3], pp)
 				results = append(results, fmt.Sprint(ok, err != nil))
 			case "GenerateURL+Parse":
 				g, err := otp.GenerateTOTPURL(up)
